@@ -6,5 +6,5 @@ CONSTANTS
   MaxRules = 0
   Wide = FALSE
   Late = 1
-INVARIANTS YearSound MonthSound MonthYearSound WeekSound HolidaySound
+INVARIANTS YearSound MonthSound MonthYearSound WeekSound HolidaySound DateSound
 CHECK_DEADLOCK FALSE
